@@ -3,6 +3,7 @@
 //! `simhint run --tier quick|thorough`, `simhint replay <file>`, `simhint list`.
 
 mod engine;
+mod instgen;
 mod prover;
 mod types;
 
@@ -169,7 +170,9 @@ fn inputs_for(t: &Target, tier: &Tier, seed: u64, round: u64) -> Vec<Vec<Val>> {
     }
     let tseed = mix(mix(seed, round), fnv64(format!("{}::{}", t.source_file, t.name).as_bytes()));
     let mut rng = Rng::stream(tseed, "inputs");
-    let (cap, nrand) = if round == 0 { (tier.input_cap, tier.n_random_inputs) } else { (0, tier.input_cap) };
+    // Generated instantiations are few and their interesting inputs are sparse: a larger sample.
+    let boost = if t.name.starts_with("gen_") { 3 } else { 1 };
+    let (cap, nrand) = if round == 0 { (tier.input_cap * boost, tier.n_random_inputs) } else { (0, tier.input_cap) };
     if t.params.is_empty() {
         if round == 0 { vec![vec![]] } else { vec![] }
     } else {
@@ -323,7 +326,13 @@ fn attack_input(ti: usize, t: &Target, args: Vec<Val>, tier: &Tier, seed: u64, r
     b
 }
 
-fn load_targets(catalogue: &Path, only: &Option<String>, workers: usize) -> Vec<Target> {
+pub static GEN_STATS: std::sync::Mutex<(usize, usize)> = std::sync::Mutex::new((0, 0));
+
+fn gen_dir() -> PathBuf {
+    simcore::verif_root().join(format!("sim/scratch/c03-gen-{}", std::process::id()))
+}
+
+fn load_targets(catalogue: &Path, only: &Option<String>, workers: usize, n_generated: usize) -> Vec<Target> {
     let mut files: Vec<PathBuf> = std::fs::read_dir(catalogue)
         .unwrap_or_else(|e| harness_error(&format!("cannot read {catalogue:?}: {e}")))
         .filter_map(|e| e.ok().map(|e| e.path()))
@@ -341,6 +350,9 @@ fn load_targets(catalogue: &Path, only: &Option<String>, workers: usize) -> Vec<
         extra.sort();
         files.extend(extra);
     }
+    // Generated instantiations (range-dependent CASM); rejected ones are counted, not fatal.
+    let n_before_gen = files.len();
+    files.extend(instgen::generate(&gen_dir(), simcore::verif_seed(), n_generated));
     let compiled = par_map(files.len(), workers, 256, |i| {
         std::panic::catch_unwind(std::panic::AssertUnwindSafe(|| compile_file(&files[i])))
             .unwrap_or_else(|_| Err(format!("the compiler panicked on {:?}", files[i])))
@@ -349,6 +361,10 @@ fn load_targets(catalogue: &Path, only: &Option<String>, workers: usize) -> Vec<
     let mut errors = vec![];
     for (k, (f, c)) in files.iter().zip(compiled).enumerate() {
         let stem = if k < n_catalogue { f.file_name().unwrap().to_string_lossy().to_string() } else { f.to_string_lossy().to_string() };
+        if k >= n_before_gen {
+            let mut g = GEN_STATS.lock().unwrap();
+            if c.is_ok() { g.0 += 1 } else { g.1 += 1 }
+        }
         if k >= n_catalogue && c.is_err() {
             continue;
         }
@@ -440,12 +456,12 @@ fn run(opts: Opts) -> i32 {
     let t0 = Instant::now();
     let seed = simcore::verif_seed();
     println!("simhint: property=C03 tier={} VERIF_SEED={seed} catalogue={:?}", opts.tier, opts.catalogue);
-    let targets = load_targets(&opts.catalogue, &opts.only, opts.workers);
+    let targets = load_targets(&opts.catalogue, &opts.only, opts.workers, if opts.tier == "thorough" { 800 } else { 160 });
     println!("simhint: {} target functions compiled in {:.1}s", targets.len(), t0.elapsed().as_secs_f64());
     let tier = if opts.tier == "thorough" {
         Tier { input_cap: 48, n_random_inputs: 8, occ_cap: 120, multi_fault_runs: 24, ample_gas: 3_000_000, max_steps_honest: 60_000 }
     } else {
-        Tier { input_cap: 10, n_random_inputs: 2, occ_cap: 40, multi_fault_runs: 4, ample_gas: 1_000_000, max_steps_honest: 20_000 }
+        Tier { input_cap: 16, n_random_inputs: 2, occ_cap: 40, multi_fault_runs: 4, ample_gas: 1_000_000, max_steps_honest: 20_000 }
     };
     let keep_log = opts.log.is_some();
     let mut total = Batch::new();
@@ -533,6 +549,11 @@ fn run(opts: Opts) -> i32 {
     ev.set("honest_reference_runs", json!(total.honest_runs));
     ev.set("rounds", json!(rounds_done));
     ev.set("target_functions", json!(targets.len()));
+    {
+        let g = GEN_STATS.lock().unwrap();
+        ev.set("generated_instantiations", json!({"accepted_by_compiler": g.0, "rejected_by_compiler": g.1, "kinds": ["bounded_int_div_rem ranges", "downcast ranges", "bounded_int_constrain ranges"]}));
+    }
+    let _ = std::fs::remove_dir_all(gen_dir());
     ev.set("target_functions_unsupported_signature", json!(total.skipped));
     ev.set("runs_per_hour", json!(((total.evaluations + total.honest_runs) as f64 / wall * 3600.0) as u64));
     ev.set("simulated_time", json!({"unit": "VM steps of completed faulted runs", "value": total.vm_steps}));
@@ -616,7 +637,7 @@ fn replay(path: &Path, quiet: bool) -> i32 {
 }
 
 fn list(opts: Opts) -> i32 {
-    let targets = load_targets(&opts.catalogue, &opts.only, opts.workers);
+    let targets = load_targets(&opts.catalogue, &opts.only, opts.workers, 96);
     for t in &targets {
         let h = t.run(
             &t.params.iter().flat_map(|p| p.boundaries().into_iter().next().unwrap_or_default()).collect::<Vec<_>>(),
